@@ -176,6 +176,10 @@ EXTRA_PROGRAMS: Dict[str, Dict[str, Any]] = {
     "float-valued-lengths": {"root.yaml": {"constants": {"N_SAMPLES": 16, "N_HALF": "N_SAMPLES / 2", "N_Q": "N_SAMPLES / 4.0"},
                                            "struct_defs": {"FV": {"fields": {"a": "int16[N_HALF]", "b": "double[N_SAMPLES / 8]"}}},
                                            "message_defs": {"FM": {"id": 4113, "fields": {"v": "FV[N_Q]", "c": "char[N_SAMPLES / 2]", "d": "int32[N_HALF]"}}}}},
+    # very small and very large float constants (written in positional notation) that other expressions refer to
+    "small-and-large-floats": {"root.yaml": {"constants": {"TICK_S": "0.00005", "FRAME_S": "TICK_S * 400", "N_TICKS": 20000, "SPAN_S": "N_TICKS * TICK_S", "EPS": "0.000000125",
+                                                           "EPS2": "EPS + EPS", "BIG": "12000000000000000.0", "BIG_HALF": "BIG / 2", "N_BINS": "SPAN_S * 8"},
+                                             "message_defs": {"SF": {"id": 4114, "fields": {"a": "double[N_BINS]", "b": "int16[FRAME_S * 100]"}}}}},
     "nested-depth": {"root.yaml": {"struct_defs": {"L1": {"fields": {"a": "int32"}}, "L2": {"fields": {"l": "L1[2]", "b": "int32"}}, "L3": {"fields": {"l": "L2[2]", "c": "int32"}}},
                                    "message_defs": {"MS": {"id": 4104, "fields": {"l": "L3[2]", "m": "L1"}}}}},
     "imports-chain": {"root.yaml": {"imports": ["a.yaml"], "message_defs": {"MS": {"id": 4105, "fields": {"s": "SB", "t": "ALB"}}}},
@@ -192,6 +196,7 @@ EXTRA_PROGRAMS: Dict[str, Dict[str, Any]] = {
 EXTRA_CONSTANTS = {
     "overlapping-constant-names": {"TOTAL": 32, "REV": 32, "SUM": 21, "MIX": 4, "AREA": 12, "CHANS": 4, "N10": 11},
     "constants-and-expressions": {"N": 3, "F": 2.5, "M2": 7, "NEG": -4, "HEXV": 16, "EXPR": 20},
+    "small-and-large-floats": {"TICK_S": 0.00005, "FRAME_S": 0.00005 * 400, "SPAN_S": 20000 * 0.00005, "EPS2": 0.000000125 + 0.000000125, "BIG_HALF": 12000000000000000.0 / 2, "N_BINS": 20000 * 0.00005 * 8},
 }
 EXTRA_SIZES = {"overlapping-constant-names": {"ST": 2 * 32 + 21 + 8 + 1, "MS": 2 * 32 + 21 + 8 + 1 + 2 + 4 * 8}}
 EXTRA_FEATURES = {"aliases-of-core-types": ["alias-of-struct"], "message-as-field": ["message-as-field"]}
